@@ -71,3 +71,6 @@ static std::string h_opt(const std::string& arg)
 	return "before=" + before + " result=" + result + buf + " after=" + after + " song= " + dump;
 }
 HANDLER("opt", h_opt);
+// optx: the same request; the check uses this name for songs that the (list-based, quartic) Lean model
+// of the optimiser cannot run in reasonable time: the model stream does not answer, the spec oracle judges
+static Registrar reg_optx("optx", h_opt);
